@@ -260,13 +260,18 @@ impl<'a, W: Write> Writer<'a, W> {
     /// written, then call [`flush`](Writer::flush).
     pub fn unvalidated_append_value_ref(&mut self, value: &Value) -> AvroResult<usize> {
         let n = self.maybe_write_header()?;
-        encode_internal(
+        let pending_len = self.buffer.len();
+        if let Err(e) = encode_internal(
             value,
             self.schema,
             self.resolved_schema.get_names(),
             self.schema.namespace(),
             &mut self.buffer,
-        )?;
+        ) {
+            // a value that fails to encode must leave no partial bytes in the pending block
+            self.buffer.truncate(pending_len);
+            return Err(e);
+        }
 
         self.num_values += 1;
 
@@ -295,11 +300,14 @@ impl<'a, W: Write> Writer<'a, W> {
             human_readable: self.human_readable,
         };
 
-        value.serialize(SchemaAwareSerializer::new(
-            &mut self.buffer,
-            self.schema,
-            config,
-        )?)?;
+        let pending_len = self.buffer.len();
+        let serialized = SchemaAwareSerializer::new(&mut self.buffer, self.schema, config)
+            .and_then(|serializer| value.serialize(serializer));
+        if let Err(e) = serialized {
+            // a value that fails to serialize must leave no partial bytes in the pending block
+            self.buffer.truncate(pending_len);
+            return Err(e);
+        }
         self.num_values += 1;
 
         if self.buffer.len() >= self.block_size {
